@@ -208,7 +208,11 @@ def handleAwsOp (prev : Option PGroup) (j : Json) : OpOut × Option PGroup :=
       let m1718 := match acquiredOf oJ resps with
         | some acq =>
           (if Spec.C17.attachHolds g.id acq oJ then [] else ["C17:attach-partition"]) ++
-          (if Spec.C18.holds acq oJ oErr then [] else ["C18:leak"])
+          (if Spec.C18.holds acq oJ oErr then [] else ["C18:leak"]) ++
+          -- acquired, and then neither an attach nor a terminate call: "attaches each acquired instance" fails outright
+          (if !acq.isEmpty && !oJ.any Spec.isAttachEntry &&
+              !oJ.any (fun e => match e.call with | .terminateInstances _ => true | _ => false) then
+            ["C17:acquired-instances-neither-attached-nor-handed-back:" ++ toString acq.length] else [])
         | none => []
       -- C04 at provider level: no request may take the group above the cloud maximum, counted from the desired
       -- size as it really stands (the model's cached group follows every accepted operation of the sequence)
